@@ -27,7 +27,7 @@ REQUIRE = {
     "monitors": {"bare BW family == formula": 30, "generic BW clauses": 30, "barrier factors": 30, "model == documented formula": 40,
                  "sympy denominator == 1/shape": 8},
     "cover": {"model": ["BW", "default", "BWR2", "BWR_below", "BWR_normal", "BWR_coupling", "BWR_LS", "BWR_LS2", "MultiBWR", "GS_rho",
-                        "Flatte", "FlatteC", "one", "exp", "exp_com", "x"]},
+                        "Flatte", "FlatteC", "one", "exp", "exp_com", "x"], "BWR_LS_waves": [2, 3]},
     "min_nontrivial": 60,
 }
 LEVEL_TEXT = ("Differential runtime monitor: the bare line-shape/barrier functions and Particle.__call__(m) of every registered model with a "
@@ -170,6 +170,8 @@ def run(ctx):
             extra = {"mass_list": [m0, m0 + 0.3], "width_list": [g0, g0 * 1.5]}
             part.update(extra)
         fix_bug1 = None
+        # BWR_LS with three partial waves: R(1+) -> B(1-) D(1-) has ls = (0,1),(2,1),(2,2) and two mixing angles
+        three_waves = model == "BWR_LS" and (i // len(MODELS)) % 4 in (1, 2)
         if model == "BWR_LS":
             fix_bug1 = bool(i // len(MODELS) % 2 == 0)
             if fix_bug1:
@@ -178,7 +180,7 @@ def run(ctx):
             "decay": {names["A"]: [[names["R"], names["C"], {"p_break": True}]], names["R"]: [names["B"], names["D"]] + ([{"p_break": True}] if False else [])},
             "particle": {"$top": {names["A"]: {"J": 1 if ls_model else 0, "P": 1, "mass": MA}},
                          "$finals": {names["B"]: {"J": 1 if ls_model else 0, "P": -1 if ls_model else 1, "mass": mB},
-                                     names["C"]: {"J": 0, "P": 1, "mass": mC}, names["D"]: {"J": 0, "P": -1 if ls_model else 1, "mass": mD}},
+                                     names["C"]: {"J": 0, "P": 1, "mass": mC}, names["D"]: {"J": 1 if three_waves else 0, "P": -1 if ls_model else 1, "mass": mD}},
                          names["R"]: part},
             "data": {"dat_order": [names["B"], names["C"], names["D"]]},
         }
@@ -200,6 +202,8 @@ def run(ctx):
                 setp = {names["R"] + "_a": float(rng.uniform(0.1, 2)), names["R"] + "_b": float(rng.uniform(-3, 3))}
             if model == "BWR_LS":
                 setp = {names["R"] + "_theta0": float(rng.uniform(0.2, 1.3))}
+                if three_waves:
+                    setp[names["R"] + "_theta1"] = float(rng.uniform(0.2, 1.3))
             missing = [k for k in setp if k not in pn]
             if missing:
                 raise RuntimeError("expected parameters %s not found in %s" % (missing, sorted(pn)))
@@ -263,6 +267,13 @@ def run(ctx):
             th = setp[names["R"] + "_theta0"]
             gam_i = [math.cos(th), math.sin(th)]
             lsl = [0, 2]
+            if three_waves:
+                th1 = setp[names["R"] + "_theta1"]
+                gam_i = [math.cos(th), math.sin(th) * math.cos(th1), math.sin(th) * math.sin(th1)]
+                lsl = [0, 2, 2]
+                ctx.covered("BWR_LS_waves", 3)
+            else:
+                ctx.covered("BWR_LS_waves", 2)
             g_i = [gi * (q / q0) ** l * ls.bprime(l, q, q0, d) for gi, l in zip(gam_i, lsl)]
             D = m0**2 - m**2 - 1j * m0 * g0 * (q / q0) * (m0 / m) * sum(x * x for x in g_i)
             ref = np.stack([x / D for x in g_i])
